@@ -186,6 +186,37 @@ func c40(c *an.Check) {
 	// NILDEREF over the same functions: a (pointer|interface, error) result is dereferenced only behind err == nil
 	nND := c.NilDerefGuard("NILDEREF", "network decoder: (value, error) results dereferenced only when err==nil", fns, vtSafeRecv)
 	c.Note("NILDEREF examined %d (value, error) call sites in %d decoder functions", nND, len(fns))
+	if c.Tier == "thorough" {
+		// whole-repository sweep of the two panic/aliasing rules: functions outside the decoder surface are cross-reference
+		// notes (they are not reachable from network input by this property's anchors), inside it they are obligations
+		inSet := map[*ssa.Function]bool{}
+		for _, f := range fns {
+			inSet[f] = true
+		}
+		var rest []*ssa.Function
+		for _, f := range p.AllRepoFuncs() {
+			if f.Parent() == nil && !inSet[f] && !p.IsGenerated(f.Pos()) && !strings.Contains(f.Pkg.Pkg.Path(), "/examples/") {
+				rest = append(rest, f)
+			}
+		}
+		sub := an.NewCheck(c.Prop, c.Tier, p)
+		an.NilDerefMaxStates = 4000
+		n1 := sub.NilDerefGuard("NILDEREF", "repository", rest, vtSafeRecv)
+		an.NilDerefMaxStates = 0
+		n2 := sub.ReleasedNotReturned("OWNERSHIP", "repository", rest)
+		bad, skipped := 0, 0
+		for _, o := range sub.Obls {
+			if o.Status == an.Undecided {
+				skipped++
+				continue
+			}
+			if o.Status != an.Discharged {
+				bad++
+				c.Note("cross-reference (outside the decoder surface): [%s] %s %s — %s", o.Rule, o.Func, o.Pos, o.Detail)
+			}
+		}
+		c.Note("thorough: NILDEREF over %d further (value, error) call sites and OWNERSHIP over %d further pool releases in %d repository functions: %d cross-reference notes, %d functions not examined (state budget of the sweep)", n1, n2, len(rest), bad, skipped)
+	}
 	nRel := c.ReleasedNotReturned("OWNERSHIP", "network decoder: returned values do not alias released pool storage", fns)
 	c.Note("OWNERSHIP examined %d sync.Pool releases in the decoder functions", nRel)
 	c.Totality(an.PanicSpec{Construct: "network decoder totality", Funcs: fns, BCE: bce, Min: 70, Preconds: pre, Reviewed: map[string]string{
